@@ -64,14 +64,15 @@ theorem step_single {inp p b s} (h : InpAt inp p (b :: s)) (ty : ItemType)
   · simp only [step, lexInsideTag, next_L h (by decide), Option.bind_eq_bind, Option.bind_some]
     simp [isSpaceEOL, isSpace, isEndOfLine, lexInsideTagMid, emitInside, hs, he, itemOf]
 
-/-- `[` `]` `,` -/
+/-- `[` `]` `,` `|` -/
 theorem step_bracket {inp p b s} (h : InpAt inp p (b :: s)) (ty : ItemType)
-    (hb : (b = 91 ∧ ty = .tLeftBracket) ∨ (b = 93 ∧ ty = .tRightBracket) ∨ (b = 44 ∧ ty = .tComma)) (le its) :
+    (hb : (b = 91 ∧ ty = .tLeftBracket) ∨ (b = 93 ∧ ty = .tRightBracket) ∨ (b = 44 ∧ ty = .tComma) ∨
+      (b = 124 ∧ ty = .tPipe)) (le its) :
     Step1 inp p le its ⟨ty, [b]⟩ := by
   intro w
   refine ⟨1, ?_⟩
   have he := emit_L (inp := inp) (st := p) (v := [b]) (s := s) h (pe := p + 1) rfl 1 le its ty
-  rcases hb with ⟨rfl, rfl⟩ | ⟨rfl, rfl⟩ | ⟨rfl, rfl⟩ <;>
+  rcases hb with ⟨rfl, rfl⟩ | ⟨rfl, rfl⟩ | ⟨rfl, rfl⟩ | ⟨rfl, rfl⟩ <;>
   · simp only [step, lexInsideTag, next_L h (by decide), Option.bind_eq_bind, Option.bind_some]
     simp [isSpaceEOL, isSpace, isEndOfLine, lexInsideTagMid, lexInsideTagRest, emitInside, he, itemOf,
       isLetterOrUnderscore, eof]
